@@ -22,6 +22,17 @@ Mirrors, line by line (current source, i.e. including the two `fix:` commits of 
                   f_getuid             -> `getuid`       NULL uid = crash (explicit outcome)
   lib/lpc/object.c reload_object       -> `doReload`     euid := 0, create() again
 
+Round 5 additions:
+  lib/lpc/operator.c f_bind           -> `.bind` case of `execWith`: same owner = no master call; master valid_bind (error
+                                                         propagates, NULL / 0 refuse = error); the function then runs as the NEW owner
+  src/simulate.c  set_master           -> `initObjs` (first load, with / without get_root_uid(): `Cfg.noRoot`) and `doDest` of the
+                                                         master with `Policy.root` (the reloaded master announces another root uid: it
+                                                         gets that name through add_uid, nobody else's names change)
+                  give_uid_to_object   -> `withCfPre`: the creator's uids are read AFTER the creator_file apply; the verification
+                                                         master may drop its own euid inside it (`Policy.cfDrop`)
+  the simul_efun object                -> actor `se` (`Cfg.simul`): "NONAME" / 0 from before the master existed, no exemption;
+                                                         destruct_object refuses to destruct it (`Err.simulDest`)
+
 Compile-time options come from NV/Gen/C20.lean (`autoTrustBackbone`; AUTO_SETEUID is recorded there, the source has
 no code depending on it - the plugin checks that).
 
@@ -65,10 +76,17 @@ def Ans.approved : Ans → Bool
   | .err => false
   | .none => false
 
-/-- mudlib configuration: get_root_uid() and get_bb_uid() of the master (backbone may be unset) -/
+/-- mudlib configuration: get_root_uid() and get_bb_uid() of the master (backbone may be unset);
+    `noRoot`: the master defines no get_root_uid() - set_master then leaves the first master with what
+    give_uid_to_object gave it before a master existed ("NONAME" / 0), `root` is unused;
+    `simul`: the simul_efun object (loaded before the master: "NONAME" / 0, no exemption anywhere) is an actor, id `se` -/
 structure Cfg where
   root : Name
   bb : Option Name
+  noRoot : Bool := false
+  simul : Bool := false
+  /-- the master defines no valid_bind(): apply_master_ob returns NULL, which MASTER_APPROVED refuses -/
+  noVb : Bool := false
 
 structure Path where
   dir : String
@@ -84,8 +102,9 @@ def files : List String := ["a", "b", "c"]
 def Path.exists (p : Path) : Bool := dirs.contains p.dir && files.contains p.file
 
 def masterOid : Oid := "m"
-/-- object ids a clone may not take: the master's and the blueprints' own ids -/
-def reservedOids : List Oid := masterOid :: dirs.flatMap (fun d => files.map (fun f => d ++ f))
+def simulOid : Oid := "se"
+/-- object ids a clone may not take: the master's, the simul_efun object's and the blueprints' own ids -/
+def reservedOids : List Oid := masterOid :: simulOid :: dirs.flatMap (fun d => files.map (fun f => d ++ f))
 
 structure Obj where
   oid : Oid
@@ -103,6 +122,7 @@ inductive Op where
   | dest (target : Oid)
   | reload (target : Oid)
   | via (owner : Oid) (op : Op)      -- evaluate a function pointer made by `owner` that performs `op`
+  | bind (newOwner : Oid) (op : Op)  -- bind() an efun pointer (load_object / clone_object) to `newOwner`, then run it
   deriving Repr, BEq, DecidableEq
 
 /-- what master::compile_object does for a path: no policy for that directory (returns 0, nothing logged) /
@@ -123,9 +143,17 @@ structure Policy where
   vs : Nat → Oid → Name → Ans
   script : Nat → String → List Op
   co : Nat → String → CoAns
+  /-- re-entrancy: while answering creator_file(name) the verification master first calls back into the creating
+      object - only when that is the master itself - and makes it seteuid(0) -/
+  cfDrop : Nat → String → Bool := fun _ _ => false
+  /-- master::valid_bind(doer, old owner = doer, new owner) for f_bind -/
+  vb : Nat → Oid → Oid → Ans := fun _ _ _ => .int 1
+  /-- what master::get_root_uid() answers now, when it no longer is the name of the first load (`none`: still `cfg.root`);
+      get_bb_uid() may change as well - set_master ignores it after the first load, so the model has nothing for it -/
+  root : Nat → Option Name := fun _ => none
 
 inductive Err where
-  | noEuidLoad | noEuidClone | exportZero | badArg | policy
+  | noEuidLoad | noEuidClone | exportZero | badArg | policy | simulDest | bindDenied
   deriving Repr, BEq, DecidableEq
 
 inductive Res where
@@ -154,6 +182,8 @@ structure StepRec where
   first : Bool := true          -- this segment starts the op (rendering only)
   co : Option (String × CoAns) := none     -- master::compile_object was asked (path, what it did)
   vsnap : List Oid := []        -- ids whose object is virtual (virtualp) at the snapshot
+  vb : Option (Oid × Oid × Ans) := none    -- master::valid_bind was asked (doer = old owner, new owner, verdict)
+  bindTo : Option Oid := none   -- this segment starts a bind(): the function will run as that object
   deriving Repr, BEq, DecidableEq
 
 /-! registry: association list keyed by `oid` -/
@@ -192,9 +222,16 @@ def World.oidOfName (w : World) (name : String) (dflt : Oid) : Oid :=
   | some e => e.1
   | none => dflt
 
+/-- the objects that exist before the first step.  set_master (first load): uid = euid = get_root_uid(), and without
+    get_root_uid() the uids give_uid_to_object assigned before the master existed: "NONAME" / 0 - which is also what the
+    simul_efun object has (it is loaded before the master) -/
+def initObjs (cfg : Cfg) : List Obj :=
+  { oid := masterOid, name := "/c20/master", uid := some (if cfg.noRoot then "NONAME" else cfg.root),
+    euid := if cfg.noRoot then none else some cfg.root } ::
+  (if cfg.simul then [{ oid := simulOid, name := "/c20/simul", uid := some "NONAME", euid := none }] else [])
+
 def World.init (cfg : Cfg) : World :=
-  { objs := [{ oid := masterOid, name := "/c20/master", uid := some cfg.root, euid := some cfg.root }],
-    loaded := [], half := [], cloneSeq := 1 }
+  { objs := initObjs cfg, loaded := [], half := [], cloneSeq := 1 }
 
 def creatorName : Ans → Name
   | .str s => s
@@ -279,17 +316,24 @@ def cloneSelf (cfg : Cfg) (pol : Policy) (i : Nat) (w : World) (A : Obj) (newOid
     World × Creation × Bool :=
   create cfg pol i { w with cloneSeq := w.cloneSeq + 1 } A newOid (p.name ++ "#" ++ toString w.cloneSeq) false
 
-def doDest (cfg : Cfg) (w : World) (A : Obj) (t : Oid) : World × List Creation × Option (Oid × Name × Ans) × Res :=
+def doDest (cfg : Cfg) (rootNow : Name) (w : World) (A : Obj) (t : Oid) : World × List Creation × Option (Oid × Name × Ans) × Res :=
   match getO w.objs t with
   | none => (w, [], none, .nobj)
   | some T =>
     if t = masterOid then
       -- destruct_object(master_ob): load_object of a new master on behalf of the caller (its euid test), the old
       -- master's creator_file answers for the master file (not logged), then set_master: uid = euid = get_root_uid()
-      if A.oid ≠ masterOid ∧ A.euid = none then (w, [], none, .err .noEuidLoad)
+      -- = `rootNow`, what the NEW master answers - through add_uid: a uid record of its own (or the existing one of
+      -- that name); the root uid record of the first load is never renamed, every other object keeps its names
+      -- (harness: a master without get_root_uid() is not reloaded - its uids would come from that unlogged answer)
+      if cfg.noRoot = true then (w, [], none, .nobj)
+      else if A.oid ≠ masterOid ∧ A.euid = none then (w, [], none, .err .noEuidLoad)
       else
-        let M' : Obj := { T with uid := some cfg.root, euid := some cfg.root }
+        let M' : Obj := { T with uid := some rootNow, euid := some rootNow }
         ({ w with objs := setO w.objs M' }, [{ name := w.nameOf T, ans := none, made := some M' }], none, .int 1)
+    else if t = simulOid then
+      -- destruct_object: "*Cannot destruct simul_efun_object while master_object exists."
+      (w, [], none, .err .simulDest)
     else ({ w with objs := delO w.objs t, loaded := w.loaded.filter (· ≠ w.nameOf T),
                    virt := w.virt.filter (· ≠ w.nameOf T), curName := w.curName.filter (·.1 ≠ t),
                    virtOids := w.virtOids.filter (· ≠ t) }, [], none, .int 1)
@@ -327,6 +371,29 @@ abbrev Run := World → Oid → Op → World × List StepRec
 
 def single (a : Oid) (op : Op) (x : World × List Creation × Option (Oid × Name × Ans) × Res) : World × List StepRec :=
   (x.1, [seg x.1 a op x.2.2.1 x.2.1 (some x.2.2.2) true])
+
+def singleF (a : Oid) (op : Op) (x : World × List Creation × Option (Oid × Name × Ans) × Res) (first : Bool) :
+    World × List StepRec :=
+  (x.1, [seg x.1 a op x.2.2.1 x.2.1 (some x.2.2.2) first])
+
+/-- give_uid_to_object asks master::creator_file(name) through apply_master_ob and reads current_object->uid / ->euid
+    only AFTERWARDS: what the apply did to the creating object counts.  The verification master can (policy `cfDrop`)
+    call back into the creating object when that is the master itself and make it `seteuid(0)` before it answers:
+    the open segment of the op is closed, the nested op runs (`run`), and the creation `k` continues from the world
+    after it with the creating object re-read.  `active`: the op really reaches creator_file. -/
+def withCfPre (pol : Policy) (i : Nat) (run : Run) (active : Bool) (w : World) (a : Oid) (op : Op) (first : Bool)
+    (name : String) (k : World → Obj → Bool → World × List StepRec) : World × List StepRec :=
+  match getO w.objs a with
+  | none => (w, [seg w a op none [] (some .nobj) first])
+  | some A =>
+    if active = true ∧ pol.cfDrop i name = true ∧ a = masterOid then
+      let y := run w masterOid (.seteuidInt 0)
+      match getO y.1.objs a with
+      | none => (y.1, seg w a op none [] none first :: y.2 ++ [seg y.1 a op none [] (some .nobj) false])
+      | some A2 =>
+        let r := k y.1 A2 false
+        (r.1, seg w a op none [] none first :: y.2 ++ r.2)
+    else k w A first
 
 /-- the object a one-creation phase really created (creator_file was asked and create() ran) -/
 def createdNow : List Creation → Option Obj
@@ -378,18 +445,29 @@ def needsCompile (w : World) (A : Obj) (p : Path) : Bool :=
   decide (¬ ((p.name ∉ w.loaded ∨ p.name ∈ w.half) ∧ getO w.objs p.oid ≠ none) ∧ p.name ∉ w.loaded ∧
     ¬ (A.oid ≠ masterOid ∧ A.euid = none) ∧ p.exists = false)
 
+/-- load_object reaches creator_file: not found in the object table, euid test passed, the file exists -/
+def loadCreates (w : World) (A : Obj) (p : Path) : Bool :=
+  decide (¬ ((p.name ∉ w.loaded ∨ p.name ∈ w.half) ∧ getO w.objs p.oid ≠ none) ∧ p.name ∉ w.loaded ∧
+    ¬ (A.oid ≠ masterOid ∧ A.euid = none) ∧ p.exists = true)
+
+/-- load_object of an ordinary (non virtual) path from world `w` -/
+def execLoadCore (cfg : Cfg) (pol : Policy) (i : Nat) (sub : Sub) (w : World) (a : Oid) (A : Obj) (p : Path)
+    (first : Bool) : World × List StepRec :=
+  let x := doLoad cfg pol i w A p
+  match createdNow x.2.1 with
+  | none => singleF a (.load p) x first
+  | some o =>
+    let y := sub x.1 o.oid p.name
+    (y.1, seg x.1 a (.load p) none x.2.1 none first :: y.2 ++ [seg y.1 a (.load p) none [] (some x.2.2.2) false])
+
 def execLoad (cfg : Cfg) (pol : Policy) (i : Nat) (run : Run) (sub : Sub) (w : World) (a : Oid) (A : Obj) (p : Path) :
     World × List StepRec :=
   if needsCompile w A p = true then
     let v := virtCore pol i run w a (.load p) true p false
     (v.1, v.2.1 ++ [seg v.1 a (.load p) none [] (some v.2.2.res) v.2.1.isEmpty])
   else
-    let x := doLoad cfg pol i w A p
-    match createdNow x.2.1 with
-    | none => single a (.load p) x
-    | some o =>
-      let y := sub x.1 o.oid p.name
-      (y.1, seg x.1 a (.load p) none x.2.1 none true :: y.2 ++ [seg y.1 a (.load p) none [] (some x.2.2.2) false])
+    withCfPre pol i run (loadCreates w A p) w a (.load p) true p.name
+      (fun W A2 f => execLoadCore cfg pol i sub W a A2 p f)
 
 /-- second half of clone_object from world `w` (after the blueprint's create() script): the clone is made by the
     same object `A'` with the uids it has now, then the clone's create() script runs -/
@@ -414,7 +492,23 @@ def clonePhase2 (cfg : Cfg) (pol : Policy) (i : Nat) (run : Run) (sub : Sub) (w 
     else if p.name ∈ w.virt then
       let v := virtCore pol i run w a op first p true
       (v.1, v.2.1 ++ [seg v.1 a op none [] (some v.2.2.res) (first && v.2.1.isEmpty)])
-    else cloneTail cfg pol i sub w a A' newOid p first
+    else
+      -- make_new_name, then init_object = give_uid_to_object: creator_file for the clone's name
+      withCfPre pol i run true w a op first (p.name ++ "#" ++ toString w.cloneSeq)
+        (fun W A2 f => cloneTail cfg pol i sub W a A2 newOid p f)
+
+/-- clone_object of a path whose blueprint has to be loaded first: creator_file + create() of the blueprint, its
+    script, then the second half -/
+def cloneBlueprint (cfg : Cfg) (pol : Policy) (i : Nat) (run : Run) (sub : Sub) (w : World) (a : Oid) (A : Obj)
+    (newOid : Oid) (p : Path) (first : Bool) : World × List StepRec :=
+  let op := Op.clone newOid p
+  let b := create cfg pol i w A p.oid p.name true
+  if b.2.2 = false then (b.1, [seg b.1 a op none [b.2.1] (some (.err .policy)) first])
+  else
+    -- blueprint created just now: its segment and its create() script
+    let y := sub b.1 p.oid p.name
+    let t := clonePhase2 cfg pol i run sub y.1 a newOid p false
+    (t.1, seg b.1 a op none [b.2.1] none first :: y.2 ++ t.2)
 
 def execClone (cfg : Cfg) (pol : Policy) (i : Nat) (run : Run) (sub : Sub) (w : World) (a : Oid) (A : Obj)
     (newOid : Oid) (p : Path) : World × List StepRec :=
@@ -432,13 +526,7 @@ def execClone (cfg : Cfg) (pol : Policy) (i : Nat) (run : Run) (sub : Sub) (w : 
         (t.1, v.2.1 ++ t.2)
       | out => (v.1, v.2.1 ++ [seg v.1 a op none [] (some out.res) v.2.1.isEmpty])
     else
-      let b := create cfg pol i w A p.oid p.name true
-      if b.2.2 = false then (b.1, [seg b.1 a op none [b.2.1] (some (.err .policy)) true])
-      else
-        -- blueprint created just now: its segment and its create() script
-        let y := sub b.1 p.oid p.name
-        let t := clonePhase2 cfg pol i run sub y.1 a newOid p false
-        (t.1, seg b.1 a op none [b.2.1] none true :: y.2 ++ t.2)
+      withCfPre pol i run true w a op true p.name (fun W A2 f => cloneBlueprint cfg pol i run sub W a A2 newOid p f)
 
 def execReload (sub : Sub) (w : World) (a : Oid) (t : Oid) : World × List StepRec :=
   let x := doReload w t
@@ -457,6 +545,12 @@ def reloadRefused (pol : Policy) (i : Nat) (w : World) (t : Oid) : Bool :=
   | some T => !(pol.script i (scriptKey (w.nameOf T))).isEmpty
   | none => false
 
+/-- efun pointers the harness binds: load_object / clone_object -/
+def bindable : Op → Bool
+  | .load _ => true
+  | .clone _ _ => true
+  | _ => false
+
 /-- one op of `a`; `run` runs the nested op of the master inside compile_object, `sub` the create() scripts of the
     objects made; `nested` = the op is itself part of a create() script (destruct refused by the harness) -/
 def execWith (cfg : Cfg) (pol : Policy) (i : Nat) (run : Run) (sub : Sub) (nested : Bool) (w : World) (a : Oid)
@@ -470,7 +564,7 @@ def execWith (cfg : Cfg) (pol : Policy) (i : Nat) (run : Run) (sub : Sub) (neste
     | .exportUid t => single a op (doExport w A t)
     | .load p => execLoad cfg pol i run sub w a A p
     | .clone o p => execClone cfg pol i run sub w a A o p
-    | .dest t => if nested then (w, [seg w a op none [] (some .nobj) true]) else single a op (doDest cfg w A t)
+    | .dest t => if nested then (w, [seg w a op none [] (some .nobj) true]) else single a op (doDest cfg ((pol.root i).getD cfg.root) w A t)
     | .reload t =>
       if nested = true ∧ reloadRefused pol i w t = true then (w, [seg w a op none [] (some .nobj) true])
       else execReload sub w a t
@@ -487,6 +581,33 @@ def execWith (cfg : Cfg) (pol : Policy) (i : Nat) (run : Run) (sub : Sub) (neste
             | none => .int 0)
           | none => .int 0
         (y.1, seg w a op none [] none true :: y.2 ++ [seg y.1 a op none [] (some res) false])
+    | .bind t op' =>
+      -- lib/lpc/operator.c f_bind: same owner = nothing to do (the master is not asked); otherwise master
+      -- valid_bind(doer, old owner, new owner) through the NON-catching apply, refusal iff !MASTER_APPROVED = error;
+      -- the bound function then runs with the NEW owner as current_object (its euid counts); afterwards the harness
+      -- reports geteuid(bound function) = the new owner's euid
+      match getO w.objs t with
+      | none => (w, [seg w a op none [] (some .nobj) true])
+      | some _ =>
+        if bindable op' = false then (w, [seg w a op none [] (some .nobj) true])
+        else
+          let v := pol.vb i a t
+          let asked : Option (Oid × Oid × Ans) := if t = a then none else some (a, t, v)
+          if t ≠ a ∧ cfg.noVb = true then
+            -- no valid_bind in the master: nothing is logged, the NULL result refuses
+            (w, [seg w a op none [] (some (.err .bindDenied)) true])
+          else if t ≠ a ∧ v = .err then (w, [{ seg w a op none [] (some (.err .policy)) true with vb := asked, bindTo := none }])
+          else if t ≠ a ∧ v.approved = false then
+            (w, [{ seg w a op none [] (some (.err .bindDenied)) true with vb := asked, bindTo := none }])
+          else
+            let y := run w t op'
+            let res : Res := match getO y.1.objs t with
+              | some T' => (match T'.euid with
+                | some n => .oid ("s:" ++ n)
+                | none => .int 0)
+              | none => .int 0
+            (y.1, { seg w a op none [] none true with vb := asked, bindTo := some t } :: y.2 ++
+              [seg y.1 a op none [] (some res) false])
 
 def runScript (f : Run) (w : World) (o : Oid) : List Op → World × List StepRec
   | [] => (w, [])
